@@ -40,6 +40,17 @@ CHECKS = {
         note="Trusted: z3, CPython, forksym. Step family assumes the invariant tying the two state fields to what was forwarded/delivered "
              "(all 9 pairs are reachable through raw receive()/send(); each counterexample is confirmed by such a public-API history). "
              "Histories from the initial state: <=3 / <=4 calls, <=2 / <=3 frames. Server send() never fails."),
+    "C13": dict(
+        technique="fork-on-branch symbolic execution of the real header mapping (one inductive step per mutator), cookie escaper (live translation table as ITE terms, live regex via ReShim) and redirect encoding over symbolic Unicode characters; z3 decides every character",
+        design_ref="DESIGN.md §4 C13",
+        note="Trusted: z3, CPython, forksym/ReShim. Header family: pre-state = clean mapping with 0..1 symbolic entries (induction hypothesis), "
+             "names/values <=2/<=3 chars. Cookie names <=2/<=3, values <=3/<=4 chars, full Unicode. Redirect: urllib.parse.quote is replaced by a "
+             "percent-encoding model that takes baize's real `safe` argument and is validated against the real quote on every path."),
+    "C16": dict(
+        technique="fork-on-branch symbolic execution: response-side cookie quoting fed into the real request-side parser (incl. stdlib _unquote run on proxies) over all 0..255 value characters; expiry with symbolic now/expires/max-age and a symbolic UTC offset",
+        design_ref="DESIGN.md §4 C16",
+        note="Trusted: z3, CPython, forksym/ReShim; the datetime model (naive local datetimes print timestamp+offset, UTC ones the timestamp) - each "
+             "expiry counterexample is replayed in a subprocess under a concrete TZ. Values <=3/<=4 chars, names 1-2 token chars."),
     "C17": dict(
         technique="fork-on-branch symbolic execution of the real (Mutable)MultiMapping/QueryParams/FormData with z3 integer keys and values inside CPython's dict; one inductive step per operation against a list-of-pairs reference model",
         design_ref="DESIGN.md §4 C17",
